@@ -1,6 +1,7 @@
 SPECIFICATION Spec
 CONSTANT Kinds <- McKinds
 CONSTANT MaxDepth = 5
+CONSTANT Pre = {"bare", "foreign"}
 CONSTANT Bypass = FALSE
 INVARIANT RoNeverWrites
 INVARIANT StaticIsInert
